@@ -13,6 +13,51 @@ func TestRapid(t *testing.T)   { Oracle.Rapid(t) }
 func TestReplay(t *testing.T)  { Oracle.Replay(t) }
 func FuzzC05(f *testing.F)     { Oracle.Fuzz(f) }
 
+// TestHistoryChild is the re-executed half of the history mode (history.go); it does nothing unless asked to.
+func TestHistoryChild(t *testing.T) {
+	if !ChildMain() {
+		t.Skip("not a history child")
+	}
+}
+
+// TestHistory: process-level history independence. Every instantiation after every other of its
+// function that shares its source type, and after every other that shares its destination type,
+// in both orders; and the whole table forwards and backwards. Each step is compared with the same
+// instantiation as the first library call of a process.
+func TestHistory(t *testing.T) {
+	env := kit.GetEnv(Property)
+	rec := kit.NewRecorder(env, "history")
+	defer func() { rec.Flush(!t.Failed()) }()
+	groups := map[string][]string{}
+	var names []string
+	add := func(g, key string) {
+		if _, ok := groups[g]; !ok {
+			names = append(names, g)
+		}
+		groups[g] = append(groups[g], key)
+	}
+	var all []string
+	for _, e := range convtab.Entries {
+		add(e.Fn+" from "+e.S.Name, e.Key())
+		add(e.Fn+" into "+e.D.Name, e.Key())
+		all = append(all, e.Key())
+	}
+	groups["all"] = all
+	names = append(names, "all")
+	for _, g := range names {
+		keys := groups[g]
+		if len(keys) < 2 {
+			continue
+		}
+		rev := make([]string, len(keys))
+		for i, k := range keys {
+			rev[len(keys)-1-i] = k
+		}
+		Oracle.One(t, env, rec, "history", &Case{Hist: keys})
+		Oracle.One(t, env, rec, "history", &Case{Hist: rev})
+	}
+}
+
 // TestSweep: every instantiation x a grid of shape pairs, with a fixed value pool.
 func TestSweep(t *testing.T) {
 	env := kit.GetEnv(Property)
